@@ -11,6 +11,8 @@ from pyvc.unit import U, R
 from . import step
 from .common import method_unit
 
+DEPENDENTS = ['C01', 'C02', 'C03', 'C04', 'C05', 'C06', 'C07', 'C08', 'C09', 'C11', 'C12', 'C18', 'C19']
+
 ASSUMPTIONS = step.ASSUMPTIONS + [
     'histories: banks untouched across mode switches follow by induction from the single-register frames proved here',
 ]
@@ -43,6 +45,8 @@ def l2_units():
     mu(Rg.current_mode_is_hyp, [])
     mu(Rg.current_mode_is_user_or_system, [])
     mu(Rg.current_instr_set, [])
+    for u in out:
+        u.props = ['C10'] + [p for p in DEPENDENTS if p != 'C10']
     return out
 
 
